@@ -60,7 +60,9 @@ def enc_out(f):
 RP_QUICK = ["", ">=3.8", "<3.7", ">=2.7,<3", "==3.9.*", ">=3.6,!=3.8.*", "<3.0||>=3.10", ">=3.8.3,<3.8.7", "==3.10.4",
             ">3.12", "<=3.5.0", "~=3.7", ">=3.7.3,<3.9.3", "!=3.9.*", ">=2.7,!=3.0.*,!=3.1.*,!=3.2.*", "<2.0",
             # a single interpreter X.Y.0 / everything but it: the wheel's own lower bound must be inclusive (seed C08c)
-            "<=3.9", "==3.9", "==3.9.0", ">=3.8,<=3.9", ">3.9", ">3.9.0,<3.10", "<=3.10.0,>3.9.7", "==2.7", "<3.9.1,>=3.9"]
+            "<=3.9", "==3.9", "==3.9.0", ">=3.8,<=3.9", ">3.9", ">3.9.0,<3.10", "<=3.10.0,>3.9.7", "==2.7", "<3.9.1,>=3.9",
+            # the same pins as the LAST range of a union (seed C08e: quick reject against a union's outer bounds ignoring include_max)
+            ">=2.7,!=3.0.*,!=3.1.*,<=3.8", "<3.0||==3.9", "!=3.7.*,<=3.12.0", "<=3.6||>=3.8,<=3.10", "!=3.9.*,>=3.8"]
 
 
 def boundary_tags(rp_text, pys):
@@ -318,6 +320,26 @@ def run_c09(run: core.Run) -> None:
         wheel = "cp39.py3\tcp39.none\t" + ".".join(tags[::3] + ["zzz"])
         out = enc_out(lambda: env.compatibility(["cp39", "py3"], ["cp39", "none"], tags[::3] + ["zzz"]))
         run.add(core.Case("compat", f"e.compat\t{enc_spec(env.requires_python)}\t{name}\t-\t{wheel}", out))
+        # scoring is a function of the tag alone: the same answers again AFTER rejected tags, in any order, on the same
+        # EnvSpec / Platform objects; the platform's tag list is untouched (seed C09e: a rejected tag left a stray "any"
+        # on the cached list)
+        before = list(env.platform.compatible_tags)
+        for junk in ("nonsense_tag", "linux_ppc64", "win_ia64"):
+            env._evaluate_platform(junk)
+        for i, t in list(enumerate(tags))[::-1]:
+            sc = env._evaluate_platform(t)
+            n_oracle += 1
+            if sc != len(tags) - i:
+                run.fail(core.Failure(f"score2|{name}|{t}", f"platform score of {t} is {sc} after rejected tags were scored "
+                                      f"(expected {len(tags) - i})", {"op": "pscore2", "platform": name, "tag": t}))
+                break
+        if list(env.platform.compatible_tags) != before or list(Platform.parse(name).compatible_tags) != before:
+            run.fail(core.Failure(f"score2|{name}|tags", "compatible_tags changed after scoring wheels",
+                                  {"op": "pscore2", "platform": name, "tag": "any"}))
+        out2 = enc_out(lambda: env.compatibility(["cp39", "py3"], ["cp39", "none"], ["zzz", "linux_ppc64"] + tags[::3]))
+        if out2 != out:
+            run.fail(core.Failure(f"score2|{name}|compat", f"compatibility() of the same wheel with rejected tags listed first is {out2}, was {out}",
+                                  {"op": "pscore2", "platform": name, "tag": "wheel"}))
     run.extra["oracle_evaluations"] = n_oracle
 
 
@@ -448,11 +470,12 @@ def wheel_names(rng, n):
     comp = lambda: "".join(rng.choice("abcXYZ019_.") for _ in range(rng.randint(1, 8)))  # noqa: E731
     out = []
     for _ in range(n):
-        name = rng.choice(["foo", "foo_bar", "Foo.Bar", "a", "x1_2"])
+        # (`.whl` also INSIDE the name: seed C18e cut at the first `.whl` instead of the trailing one)
+        name = rng.choice(["foo", "foo_bar", "Foo.Bar", "a", "x1_2", "tools.whl_helpers", "my.whl"])
         ver = rng.choice(["1.0", "2!1.0.post1", "1.0rc1", "0.0.1.dev3", "2024.1.1", "1_0"])
         parts = [name, ver]
         if rng.random() < 0.3:
-            parts.append(rng.choice(["1", "2abc", "10_x"]))
+            parts.append(rng.choice(["1", "2abc", "10_x", "2.whl"]))
         py = ".".join(rng.sample(["py2", "py3", "cp39", "cp310", "pp39"], rng.randint(1, 3)))
         abi = ".".join(rng.sample(["none", "abi3", "cp39", "cp310m", "pypy39_pp73"], rng.randint(1, 2)))
         # (tags ending in one of the characters of ".whl" too: seed C18c, rstrip(".whl") for removesuffix)
@@ -462,6 +485,8 @@ def wheel_names(rng, n):
                                    rng.randint(1, 3)))
         parts += [py, abi, plat]
         s = "-".join(parts) + ".whl"
+        if rng.random() < 0.03:
+            s += ".whl"
         r = rng.random()
         if r < 0.08:
             s = s[:-4] + rng.choice([".zip", ".whl.txt", "", ".WHL"])
@@ -582,6 +607,16 @@ def replay(data: dict) -> bool:
             return True
         lst, s = expected_tags(name)
         return s is not None and (set(got) != s or (lst is not None and got != lst))
+    if r["op"] == "pscore2":
+        name = r["platform"]
+        env = EnvSpec(parse_version_specifier(""), Platform.parse(name))
+        tags = [*Platform.parse(name).compatible_tags, "any"]
+        first = [env._evaluate_platform(t) for t in tags]
+        for junk in ("nonsense_tag", "linux_ppc64", "win_ia64"):
+            env._evaluate_platform(junk)
+        again = [env._evaluate_platform(t) for t in tags]
+        return first != again or first != [len(tags) - i for i in range(len(tags))] or \
+            list(Platform.parse(name).compatible_tags) + ["any"] != tags
     if r["op"] == "wheel":
         try:
             a, b, c = parse_wheel_tags(r["filename"])
